@@ -382,6 +382,12 @@ def _ok(r, what):
     return r['json']
 
 
+XP = '99999999-9999-4999-8999-999999999999'
+XP_LISTS = {'/v2/workflows': 'xp_wf', '/v2/workbooks': 'xp_wb',
+            '/v2/actions': 'xp_act', '/v2/environments': 'xp_env',
+            '/v2/cron_triggers': 'xp_ct'}
+
+
 def build_fixtures():
     """One populated database (project P1, private scope) built through the
     API itself as an admin of P1 plus the real engine/executor; returns
@@ -424,6 +430,19 @@ def build_fixtures():
              'topic': 't', 'event': 'e.v'})
     fx['et1'] = j['id']
     adm('POST', '/v2/workflows/%s/members' % fx['wf1'], {'member_id': 'P2'})
+    # private resources of another project (uuid-like id: the project_id
+    # list filter only accepts such ids) for the cross-project list probes
+    def other(method, url, body=None, ctype=None):
+        return _ok(send(method, url, body, ctype, project=XP, admin=False),
+                   '%s %s as %s' % (method, url, XP))
+    other('POST', '/v2/workflows', WF % ('xp_wf', 'std.noop'), 'text')
+    other('POST', '/v2/workbooks', WB % 'xp_wb', 'text')
+    other('POST', '/v2/actions', ACT % 'xp_act', 'text')
+    other('POST', '/v2/environments',
+          {'name': 'xp_env', 'variables': json.dumps({'k': 'v'})})
+    other('POST', '/v2/cron_triggers',
+          {'name': 'xp_ct', 'workflow_name': 'xp_wf',
+           'pattern': '* * * * *'})
     env.W.msgs[:] = []      # event engine notifications of the fixtures
 
     def run_wf(name):
